@@ -100,6 +100,10 @@ const R_ALL: &[(&str, Fm)] = &[
     ("@@||b.tracker.co.uk^$generichide", Fm::Std),
     ("$removeparam=utm", Fm::Std),
     ("||example.com^$removeparam=x", Fm::Std),
+    // two generic removeparam rules whose one-letter names give them no token: same bucket, same
+    // mask - fusable if anything ever optimised this list (nothing may)
+    ("$removeparam=b", Fm::Std),
+    ("$removeparam=x", Fm::Std),
     // --- hosts format
     ("0.0.0.0 hosts.ads.net", Fm::Hosts),
     ("tracker.co.uk", Fm::Hosts),
